@@ -29,7 +29,37 @@ import (
 // *specification* ghost state (who exists, credential epoch, which sessions are live) and check every
 // successful authentication against it.
 
-// ---------- passwords: interned ids (see C12_Corr.v: ids >= 1000 are > 72 bytes, id%1000 = their 72-byte prefix)
+// c12BcryptKey is what bcrypt actually keys on: the first 72 bytes of the cyclic repetition of password ++ NUL
+// (x/crypto/blowfish ExpandKey).  Two passwords with the same key are the same password to bcrypt.
+func c12BcryptKey(p []byte) [72]byte {
+	k := append(append([]byte{}, p...), 0)
+	var out [72]byte
+	for i := range out {
+		out[i] = k[i%len(k)]
+	}
+	return out
+}
+
+// c12Plain: at most 72 bytes and no NUL byte -- the domain on which bcrypt is injective (crypto_ok.verify_gen)
+func c12Plain(p []byte) bool { return len(p) <= 72 && !bytes.Contains(p, []byte{0}) }
+
+// c12WrongPasswordVerdict judges an ACCEPTED attempt q against the current password cur:
+// "" = fine, "observed" = bcrypt itself identifies the two strings (outside the bcrypt hypothesis), else a failure text
+func c12WrongPasswordVerdict(cur, q []byte) string {
+	switch {
+	case bytes.Equal(cur, q):
+		return ""
+	case len(cur) == 0:
+		return "a non-empty string authenticated although the user has the empty password (no hash)"
+	case c12Plain(cur) && c12Plain(q):
+		return "a string different from the current password authenticated"
+	case c12BcryptKey(cur) == c12BcryptKey(q):
+		return "observed"
+	}
+	return "a string that bcrypt does not identify with the current password authenticated"
+}
+
+// ---------- passwords: interned ids (see Instance.v: ids >= 1000 are > 72 bytes, id%1000 = their 72-byte prefix)
 var c12A72 = strings.Repeat("A", 72)
 var c12B72 = strings.Repeat("B", 71) + "\xfe"
 
@@ -47,6 +77,10 @@ func c12Pw(id uint64) string {
 		return c12B72
 	case 5:
 		return "letmeiN"
+	case 6:
+		return "ab"
+	case 7:
+		return "ab\x00ab" // bcrypt-equivalent to "ab": same 72-byte cyclic expansion of password ++ NUL
 	case 1003:
 		return c12A72 + "x"
 	case 2003:
@@ -57,7 +91,7 @@ func c12Pw(id uint64) string {
 	panic(fmt.Sprintf("c12: unknown password id %d", id))
 }
 
-var c12AllPw = []uint64{0, 1, 2, 3, 4, 5, 1003, 2003, 1004}
+var c12AllPw = []uint64{0, 1, 2, 3, 4, 5, 6, 7, 1003, 2003, 1004}
 
 // ---------- abstract operations (sessions are addressed through slots; slot -> most recent session number)
 const (
@@ -79,11 +113,11 @@ var c12KindName = []string{"CreateUser", "SetPassword", "SetDisabled", "Invalida
 	"DeleteSession", "Advance", "AuthPassword", "AuthCookie", "AuthOneTime", "GetSession"}
 
 type c12Op struct {
-	kind    int
-	u, p    uint64
-	slot    int
-	n       uint64 // ttl or dt, seconds (multiples of 10)
-	flag    bool   // disabled value / one-time
+	kind int
+	u, p uint64
+	slot int
+	n    uint64 // ttl or dt, seconds (multiples of 10)
+	flag bool   // disabled value / one-time
 }
 
 type c12SpecUser struct {
@@ -107,23 +141,23 @@ type c12Hash struct {
 }
 
 type c12World struct {
-	t      *testing.T
-	rec    *vRecorder
-	ctx    context.Context
-	auth   *Authenticator
-	prefix string
-	capN   int
-	sids   []string // sids[n] = real id of session number n; sids[0] = an id that was never issued
-	slots  [4]uint64
-	hashes []c12Hash
-	salt   uint64
-	su     map[uint64]*c12SpecUser
-	ss     map[uint64]*c12SpecSess
-	vnow   int64
-	ops    []string
-	outs   []string
-	descs  []string
-	pending string
+	t                  *testing.T
+	rec                *vRecorder
+	ctx                context.Context
+	auth               *Authenticator
+	prefix             string
+	capN               int
+	sids               []string // sids[n] = real id of session number n; sids[0] = an id that was never issued
+	slots              [4]uint64
+	hashes             []c12Hash
+	salt               uint64
+	su                 map[uint64]*c12SpecUser
+	ss                 map[uint64]*c12SpecSess
+	vnow               int64
+	ops                []string
+	outs               []string
+	descs              []string
+	pending            string
 	accepted, rejected int
 }
 
@@ -477,13 +511,15 @@ func (w *c12World) doAuthPassword(u, p uint64) {
 			w.fail("password_auth_sound", "deleted-user-password", desc+" authenticated a deleted user")
 		case su.disabled:
 			w.fail("password_auth_sound", "disabled-user-password", desc+" authenticated a disabled user")
-		case p < 1000 && p != su.pw:
-			w.fail("password_auth_sound", "wrong-password-authenticates", fmt.Sprintf("%s accepted although the current password is pw%d", desc, su.pw))
-		case p >= 1000 && p%1000 != su.pw:
-			w.fail("password_auth_sound", "wrong-password-authenticates", fmt.Sprintf("%s accepted although the current password is pw%d", desc, su.pw))
-		case p >= 1000:
-			// bcrypt compares the first 72 bytes only: outside the domain of the bcrypt hypothesis, recorded not judged
-			w.rec.Err("bcrypt-72-byte-prefix-accepted")
+		default:
+			switch v := c12WrongPasswordVerdict([]byte(c12Pw(su.pw)), []byte(c12Pw(p))); v {
+			case "":
+			case "observed":
+				// bcrypt keys on 72 bytes of the cyclic repetition of password ++ NUL: recorded, not judged
+				w.rec.Err("bcrypt-equivalent-nonplain-password-accepted")
+			default:
+				w.fail("password_auth_sound", "wrong-password-authenticates", fmt.Sprintf("%s accepted although the current password is pw%d: %s", desc, su.pw, v))
+			}
 		}
 	} else {
 		w.rejected++
@@ -605,7 +641,18 @@ func (w *c12World) doGetSession(n uint64) {
 
 func (w *c12World) apply(o c12Op) {
 	w.rec.Size(c12KindName[o.kind])
-	w.pending = fmt.Sprintf("%s(u%d,pw%d,slot%d=s%d,n=%d,%v)", c12KindName[o.kind], o.u, o.p, o.slot, w.slots[o.slot], o.n, o.flag)
+	switch o.kind {
+	case c12AuthPassword:
+		w.pending = fmt.Sprintf("AuthenticateUser(u%d,pw%d)", o.u, o.p)
+	case c12AuthCookie:
+		w.pending = fmt.Sprintf("AuthenticateCookie(s%d)", w.slots[o.slot])
+	case c12AuthOneTime:
+		w.pending = fmt.Sprintf("AuthenticateOneTimeSession(s%d)", w.slots[o.slot])
+	case c12GetSession:
+		w.pending = fmt.Sprintf("GetSession(s%d)", w.slots[o.slot])
+	default:
+		w.pending = c12KindName[o.kind]
+	}
 	defer func() { w.pending = "" }()
 	switch o.kind {
 	case c12CreateUser:
@@ -647,20 +694,20 @@ func c12Run(t *testing.T, rec *vRecorder, a *Authenticator, stream, kind string,
 }
 
 // op constructors
-func cU(u, p uint64) c12Op              { return c12Op{kind: c12CreateUser, u: u, p: p} }
-func sP(u, p uint64) c12Op              { return c12Op{kind: c12SetPassword, u: u, p: p} }
-func sD(u uint64, b bool) c12Op         { return c12Op{kind: c12SetDisabled, u: u, flag: b} }
-func inv(u uint64) c12Op                { return c12Op{kind: c12Invalidate, u: u} }
-func dU(u uint64) c12Op                 { return c12Op{kind: c12DeleteUser, u: u} }
+func cU(u, p uint64) c12Op      { return c12Op{kind: c12CreateUser, u: u, p: p} }
+func sP(u, p uint64) c12Op      { return c12Op{kind: c12SetPassword, u: u, p: p} }
+func sD(u uint64, b bool) c12Op { return c12Op{kind: c12SetDisabled, u: u, flag: b} }
+func inv(u uint64) c12Op        { return c12Op{kind: c12Invalidate, u: u} }
+func dU(u uint64) c12Op         { return c12Op{kind: c12DeleteUser, u: u} }
 func cS(u uint64, slot int, ttl uint64, one bool) c12Op {
 	return c12Op{kind: c12CreateSession, u: u, slot: slot, n: ttl, flag: one}
 }
-func dS(slot int) c12Op         { return c12Op{kind: c12DeleteSession, slot: slot} }
-func adv(dt uint64) c12Op       { return c12Op{kind: c12Advance, n: dt} }
-func aP(u, p uint64) c12Op      { return c12Op{kind: c12AuthPassword, u: u, p: p} }
-func aC(slot int) c12Op         { return c12Op{kind: c12AuthCookie, slot: slot} }
-func aO(slot int) c12Op         { return c12Op{kind: c12AuthOneTime, slot: slot} }
-func gS(slot int) c12Op         { return c12Op{kind: c12GetSession, slot: slot} }
+func dS(slot int) c12Op    { return c12Op{kind: c12DeleteSession, slot: slot} }
+func adv(dt uint64) c12Op  { return c12Op{kind: c12Advance, n: dt} }
+func aP(u, p uint64) c12Op { return c12Op{kind: c12AuthPassword, u: u, p: p} }
+func aC(slot int) c12Op    { return c12Op{kind: c12AuthCookie, slot: slot} }
+func aO(slot int) c12Op    { return c12Op{kind: c12AuthOneTime, slot: slot} }
+func gS(slot int) c12Op    { return c12Op{kind: c12GetSession, slot: slot} }
 
 // a datastore whose next Get of a session document is followed by a callback: forces the schedule
 // "A reads the session; B runs completely; A continues" on the real code
@@ -726,25 +773,26 @@ func TestVerifC12(t *testing.T) {
 
 	// ---------- (a) corpus: one history per clause of the property ----------
 	corpus := map[string][]c12Op{
-		"disabled-user-cookie":      {cU(1, 1), cS(1, 0, 1000, false), aC(0), sD(1, true), aP(1, 1), aC(0), gS(0), sD(1, false), aC(0)},
-		"disabled-user-onetime":     {cU(1, 1), cS(1, 0, 1000, true), sD(1, true), aO(0), aO(0), sD(1, false), gS(0)},
-		"disabled-create-session":   {cU(1, 1), sD(1, true), cS(1, 0, 1000, false), aC(0), sD(1, false), cS(1, 0, 1000, false), aC(0)},
-		"password-change":           {cU(1, 1), cS(1, 0, 1000, false), aC(0), aP(1, 1), sP(1, 5), aC(0), gS(0), aO(0), aP(1, 1), aP(1, 5), sP(1, 1), aC(0), aP(1, 1)},
-		"invalidate-sessions":       {cU(1, 1), cS(1, 0, 1000, false), cS(1, 1, 1000, true), inv(1), aC(0), aO(1), aP(1, 1), cS(1, 2, 1000, false), aC(2)},
-		"delete-recreate-user":      {cU(1, 1), cS(1, 0, 1000, false), dU(1), aC(0), aP(1, 1), cU(1, 1), aC(0), gS(0), aP(1, 1), cS(1, 1, 1000, false), aC(1)},
-		"delete-session":            {cU(1, 1), cS(1, 0, 1000, false), aC(0), dS(0), aC(0), gS(0), aO(0), dS(0)},
-		"expiry":                    {cU(1, 1), cS(1, 0, 1000, false), adv(600), aC(0), adv(600), aC(0), adv(1000), aC(0), gS(0), dS(0)},
-		"expiry-no-refresh":         {cU(1, 1), cS(1, 0, 1000, false), adv(70), aC(0), adv(900), aC(0), adv(70), aC(0), gS(0)},
-		"one-time-cookie":           {cU(1, 1), cS(1, 0, 1000, true), gS(0), aC(0), aC(0), gS(0), dS(0)},
-		"one-time-token":            {cU(1, 1), cS(1, 0, 1000, true), aO(0), aO(0), aC(0), cS(1, 1, 1000, false), aO(1), aO(1), aC(1)},
-		"one-time-aged":             {cU(1, 1), cS(1, 0, 1000, true), adv(600), aC(0), aC(0)},
-		"one-time-stale":            {cU(1, 1), cS(1, 0, 1000, true), sP(1, 5), aC(0), aO(0), gS(0), dS(0)},
-		"empty-password":            {cU(1, 0), aP(1, 0), aP(1, 1), sP(1, 1), aP(1, 0), aP(1, 1), sP(1, 0), aP(1, 0), aP(1, 1), cU(2, 1), aP(2, 0)},
-		"odd-passwords":             {cU(1, 2), aP(1, 2), aP(1, 1), cU(2, 3), aP(2, 3), aP(2, 1003), aP(2, 2003), aP(2, 1004), aP(2, 4), sP(2, 1003), aP(2, 3), cU(3, 1004)},
-		"two-users-same-password":   {cU(1, 1), cU(2, 5), aP(1, 1), aP(2, 1), aP(2, 5), aP(1, 5), sP(2, 1), aP(2, 1), aP(2, 5), sP(1, 5), aP(1, 1), aP(1, 5)},
-		"cross-user-session":        {cU(1, 1), cU(2, 1), cS(1, 0, 1000, false), cS(2, 1, 1000, false), dU(1), aC(0), aC(1), sP(2, 1), aC(1)},
-		"unknown":                   {aP(1, 1), aC(0), aO(0), gS(0), dS(0), sP(1, 1), sD(1, true), inv(1), dU(1), cS(1, 0, 1000, false), cU(1, 1), cU(1, 5), cS(1, 0, 0, false), aP(1, 5), aP(1, 1)},
-		"refresh-then-stale":        {cU(1, 1), cS(1, 0, 1000, false), adv(450), sP(1, 5), aC(0), adv(600), aC(0)},
+		"disabled-user-cookie":    {cU(1, 1), cS(1, 0, 1000, false), aC(0), sD(1, true), aP(1, 1), aC(0), gS(0), sD(1, false), aC(0)},
+		"disabled-user-onetime":   {cU(1, 1), cS(1, 0, 1000, true), sD(1, true), aO(0), aO(0), sD(1, false), gS(0)},
+		"disabled-create-session": {cU(1, 1), sD(1, true), cS(1, 0, 1000, false), aC(0), sD(1, false), cS(1, 0, 1000, false), aC(0)},
+		"password-change":         {cU(1, 1), cS(1, 0, 1000, false), aC(0), aP(1, 1), sP(1, 5), aC(0), gS(0), aO(0), aP(1, 1), aP(1, 5), sP(1, 1), aC(0), aP(1, 1)},
+		"invalidate-sessions":     {cU(1, 1), cS(1, 0, 1000, false), cS(1, 1, 1000, true), inv(1), aC(0), aO(1), aP(1, 1), cS(1, 2, 1000, false), aC(2)},
+		"delete-recreate-user":    {cU(1, 1), cS(1, 0, 1000, false), dU(1), aC(0), aP(1, 1), cU(1, 1), aC(0), gS(0), aP(1, 1), cS(1, 1, 1000, false), aC(1)},
+		"delete-session":          {cU(1, 1), cS(1, 0, 1000, false), aC(0), dS(0), aC(0), gS(0), aO(0), dS(0)},
+		"expiry":                  {cU(1, 1), cS(1, 0, 1000, false), adv(600), aC(0), adv(600), aC(0), adv(1000), aC(0), gS(0), dS(0)},
+		"expiry-no-refresh":       {cU(1, 1), cS(1, 0, 1000, false), adv(70), aC(0), adv(900), aC(0), adv(70), aC(0), gS(0)},
+		"one-time-cookie":         {cU(1, 1), cS(1, 0, 1000, true), gS(0), aC(0), aC(0), gS(0), dS(0)},
+		"one-time-token":          {cU(1, 1), cS(1, 0, 1000, true), aO(0), aO(0), aC(0), cS(1, 1, 1000, false), aO(1), aO(1), aC(1)},
+		"one-time-aged":           {cU(1, 1), cS(1, 0, 1000, true), adv(600), aC(0), aC(0)},
+		"one-time-stale":          {cU(1, 1), cS(1, 0, 1000, true), sP(1, 5), aC(0), aO(0), gS(0), dS(0)},
+		"empty-password":          {cU(1, 0), aP(1, 0), aP(1, 1), sP(1, 1), aP(1, 0), aP(1, 1), sP(1, 0), aP(1, 0), aP(1, 1), cU(2, 1), aP(2, 0)},
+		"odd-passwords":           {cU(1, 2), aP(1, 2), aP(1, 1), cU(2, 3), aP(2, 3), aP(2, 1003), aP(2, 2003), aP(2, 1004), aP(2, 4), sP(2, 1003), aP(2, 3), cU(3, 1004)},
+		"bcrypt-nul-cycle":        {cU(1, 6), aP(1, 7), aP(1, 6), aP(1, 1), sP(1, 7), aP(1, 6), aP(1, 7), aP(1, 2), cU(2, 2), aP(2, 2), aP(2, 6)},
+		"two-users-same-password": {cU(1, 1), cU(2, 5), aP(1, 1), aP(2, 1), aP(2, 5), aP(1, 5), sP(2, 1), aP(2, 1), aP(2, 5), sP(1, 5), aP(1, 1), aP(1, 5)},
+		"cross-user-session":      {cU(1, 1), cU(2, 1), cS(1, 0, 1000, false), cS(2, 1, 1000, false), dU(1), aC(0), aC(1), sP(2, 1), aC(1)},
+		"unknown":                 {aP(1, 1), aC(0), aO(0), gS(0), dS(0), sP(1, 1), sD(1, true), inv(1), dU(1), cS(1, 0, 1000, false), cU(1, 1), cU(1, 5), cS(1, 0, 0, false), aP(1, 5), aP(1, 1)},
+		"refresh-then-stale":      {cU(1, 1), cS(1, 0, 1000, false), adv(450), sP(1, 5), aC(0), adv(600), aC(0)},
 	}
 	var names []string
 	for k := range corpus {
@@ -755,7 +803,7 @@ func TestVerifC12(t *testing.T) {
 		c12Run(t, rec, a, "corpus", "history:"+k, bigCap, corpus[k])
 	}
 	// the same with a one-slot cache (every insertion evicts)
-	for _, k := range []string{"password-change", "two-users-same-password", "odd-passwords", "empty-password"} {
+	for _, k := range []string{"password-change", "two-users-same-password", "odd-passwords", "empty-password", "bcrypt-nul-cycle"} {
 		c12Run(t, rec, a, "corpus", "history-cache1:"+k, 1, corpus[k])
 	}
 
@@ -1031,18 +1079,20 @@ func TestVerifC12(t *testing.T) {
 		if (warmU != nil) != (coldU != nil) {
 			c12Fail(rec, "cache_never_widens", "cache-fast-path-disagrees", in, fmt.Sprintf("warm cache accepted=%v, cold cache (full bcrypt check) accepted=%v", warmU != nil, coldU != nil))
 		}
-		if warmU != nil && !bytes.Equal(q, cur) {
-			if len(q) > 72 && len(cur) == 72 && bytes.Equal(q[:72], cur) {
-				truncSeen++ // bcrypt reads 72 bytes: outside the bcrypt hypothesis (assumption recorded in props/C12.json)
-			} else {
-				c12Fail(rec, "password_auth_sound", "wrong-password-authenticates", in, "a byte string different from the current password authenticated")
+		if warmU != nil {
+			switch v := c12WrongPasswordVerdict(cur, q); v {
+			case "":
+			case "observed":
+				truncSeen++ // bcrypt identifies the two strings: outside the bcrypt hypothesis (props/C12.json assumptions)
+			default:
+				c12Fail(rec, "password_auth_sound", "wrong-password-authenticates", in, v)
 			}
 		}
 		if warmU == nil && bytes.Equal(q, cur) {
 			c12Fail(rec, "harness", "current-password-rejected", in, "the current password was rejected")
 		}
 	}
-	rec.Extra("bcrypt_72_byte_prefix_accepted", truncSeen)
+	rec.Extra("bcrypt_equivalent_nonplain_accepted", truncSeen)
 
 	// ---------- (f) real TTL expiry (thorough tier only: needs to wait for the store) ----------
 	if vThorough() {
